@@ -404,3 +404,85 @@ example : fileChildAt 0 exA [4, 0, 1] = none := by simp [fileChildAt]
 example : fileChildAt 0 exA [4, 0, 2, 1, 1] = none := by simp [fileChildAt]
 example : fileChildAt 0 exA [4, 0, 2, 1, 3, 0] = none := by simp [fileChildAt, msgChildAt, exA, Msgs.get?]
 end Pgs.AST
+
+/-! ### the syntax and package statements -/
+namespace Pgs.AST
+
+def isSyntaxLoc (l : Loc) : Bool := l.path == [12] || l.path == []
+def isPackageLoc (l : Loc) : Bool := l.path == [2]
+
+theorem routeLoc_package (fi : Nat) (f : FileD) (st : InfoState) (l : Loc) :
+    (routeLoc fi f st l).packageInfo = if isPackageLoc l then some l.tag else st.packageInfo := by
+  unfold routeLoc isPackageLoc
+  by_cases h2 : l.path = [2]
+  · simp [h2, fileChildAt]
+  · have hb : (l.path == [2]) = false := by simpa using h2
+    simp only [hb, Bool.false_eq_true, if_false]
+    by_cases h1 : l.path.length = 1
+    · by_cases h12 : l.path = [12]
+      · simp [h12, fileChildAt]
+      · simp [h1, h12, h2]
+    · simp only [h1, if_false, false_and]
+      cases hc : fileChildAt fi f l.path with
+      | none => rfl
+      | some r => simp only; split <;> rfl
+
+theorem routeLoc_syntax (fi : Nat) (f : FileD) (st : InfoState) (l : Loc) :
+    (routeLoc fi f st l).syntaxInfo = if isSyntaxLoc l then some l.tag else st.syntaxInfo := by
+  unfold routeLoc isSyntaxLoc
+  by_cases h12 : l.path = [12]
+  · simp [h12, fileChildAt]
+  · by_cases h0 : l.path = []
+    · simp [h0, fileChildAt]
+    · have hb : (l.path == [12] || l.path == []) = false := by simp [h12, h0]
+      simp only [hb, Bool.false_eq_true, if_false]
+      by_cases h1 : l.path.length = 1
+      · by_cases h2 : l.path = [2]
+        · simp [h2, fileChildAt]
+        · simp [h1, h12, h2]
+      · simp only [h1, if_false, false_and]
+        cases hc : fileChildAt fi f l.path with
+        | none => rfl
+        | some r =>
+          have hr := C08_no_other fi f _ _ hc
+          have : r.path ≠ [] := by rw [hr]; exact h0
+          simp [this]
+
+/-- "the last one wins" over a fold -/
+theorem fold_last {σ : Type} (get : σ → Option Nat) (step : σ → Loc → σ) (p : Loc → Bool)
+    (h : ∀ s l, get (step s l) = if p l then some l.tag else get s) :
+    ∀ (locs : List Loc) (s0 : σ),
+      get (locs.foldl step s0) = match locs.reverse.find? p with | some l => some l.tag | none => get s0 := by
+  intro locs
+  induction locs with
+  | nil => intro s0; rfl
+  | cons l locs ih =>
+    intro s0
+    simp only [List.foldl_cons, ih, List.reverse_cons, List.find?_append]
+    cases hf : locs.reverse.find? p with
+    | some x => simp
+    | none =>
+      simp only [Option.none_or, List.find?_cons, List.find?_nil]
+      by_cases hp : p l = true
+      · simp [hp, h]
+      · have : p l = false := by simpa using hp
+        simp [this, h]
+
+/-- **C08 (package statement)**: the information reported for the package statement is that of the
+    (last) location whose path is `[2]`; no other location touches it. -/
+theorem C08_package_info (fi : Nat) (f : FileD) :
+    (f.locs.foldl (routeLoc fi f) ⟨none, none, []⟩).packageInfo =
+      (f.locs.reverse.find? isPackageLoc).map (·.tag) := by
+  rw [fold_last (·.packageInfo) (routeLoc fi f) isPackageLoc (routeLoc_package fi f)]
+  cases f.locs.reverse.find? isPackageLoc <;> rfl
+
+/-- **C08 (syntax statement)**: the information reported for the syntax statement is that of the
+    last location whose path is `[12]` or the whole-file path `[]` (which `file.addSourceCodeInfo`
+    also stores there — hence the domain note: the whole-file location precedes the syntax one). -/
+theorem C08_syntax_info (fi : Nat) (f : FileD) :
+    (f.locs.foldl (routeLoc fi f) ⟨none, none, []⟩).syntaxInfo =
+      (f.locs.reverse.find? isSyntaxLoc).map (·.tag) := by
+  rw [fold_last (·.syntaxInfo) (routeLoc fi f) isSyntaxLoc (routeLoc_syntax fi f)]
+  cases f.locs.reverse.find? isSyntaxLoc <;> rfl
+
+end Pgs.AST
